@@ -264,7 +264,11 @@ class OctetStringEncoder(AbstractItemEncoder):
             else:
                 tagSet = tag.TagSet()
 
-            asn1Spec = value.clone(tagSet=tagSet)
+            # chunks are not values of the type: subtype constraints
+            # (e.g. SIZE) must not be applied to them
+            value = asn1Spec = value.clone(
+                tagSet=tagSet,
+                subtypeSpec=constraint.ConstraintsIntersection())
 
         elif not isOctetsType(value):
             baseTag = asn1Spec.tagSet.baseTag
@@ -276,7 +280,9 @@ class OctetStringEncoder(AbstractItemEncoder):
             else:
                 tagSet = tag.TagSet()
 
-            asn1Spec = asn1Spec.clone(tagSet=tagSet)
+            asn1Spec = asn1Spec.clone(
+                tagSet=tagSet,
+                subtypeSpec=constraint.ConstraintsIntersection())
 
         pos = 0
         substrate = null
